@@ -69,6 +69,12 @@ CHECKS.update({
    text='13 obligations: mutators_guarded (every extracted overload that reaches a write primitive carries a rejection mechanism that is false for const view bytes / const cursor bytes; 381 rows, 58 writers), conversions_guarded, guard_definitions, table_guarded, writes_consistent, conv_only_towards_const, conv_table, no_path_to_mutator / no_path_to_cursor_mutator / cursor_children_const (from a const-byte node no mutator is enabled after any list of accessor, by-tag, conversion, cursor-wrapper steps), readers_write_nothing. Observed: ~28k static_asserts, 384 negative-compile pairs, 64 read-only traversals on PROT_READ pages per quick run.',
    note='PARTIAL by nature (DESIGN 10): overload resolution, SFINAE and template instantiation are the compilers; extract/guards.py (regex/brace scraper) is trusted; enabledAt/conv are compared with the compilers through probes only.'),
 })
+CHECKS.update({
+ 'C18': dict(
+   technique='Lean 4 proof relating an executable model of every traits/tags specialisation (Gen.Traits.traitTable, layout facts from the validator model) to a declarative specification by structural induction over the schema tree + per generated schema: real sbeppc -> generated C++ trait dumper reading everything through sbepp::*_traits<Tag> with a generic walk over the type_lists; three-way compare of dump, independent Python oracle computed from the schema dict, and Lean table',
+   text='16 obligations: entities_complete/entities_sound (table rows = entities: types, enums, sets, composites public and inline, refs, values, choices, messages, fields, groups at any depth, data), traits_copy_attributes + ref_attributes (descriptive traits are the XML attributes), traits_derived* (presence = actual presence; block lengths; composite size; element/field offsets = validator offsets; default min/max/null = SBE table), children_lists_in_schema_order, tags_distinct (under unique sibling names), predicates_classify; ref_deprecated_full kept as def, refuted (ref_deprecated_full_false) and proved under the exact hypothesis (ref_deprecated_partial). Correspondence: every trait, *_ok type relations, traits_tag round trips, 11 predicates per tag, generic child-list walk on 20 (quick) / 120 (thorough) generated schemas.',
+   note='Trusted: hand-written Gen/Traits.lean and string renderings tied to sbeppc by the differential run only; c18gen.Oracle and c18_dump.hpp helpers; decimal floating-point literals converted by Python. type_tags compared as a set; offsets of constant members not judged; size_bytes(...) left to C05. Open known finding: a <ref> inherits deprecated() from its target.'),
+})
 NOT_APPLICABLE = {}
 
 ALL = ['C%02d' % i for i in range(1, 21)]
